@@ -9,11 +9,11 @@ from pjplan.utils import TextTable, GREEN, YELLOW, GREY, RED
 
 
 def _validate_graph_isolation(project: WBS):
-    all_tasks = {task.id: task for task in project.tasks}
+    all_tasks = {id(task): task for task in project.tasks}
 
     for t in all_tasks.values():
         for pr in t.predecessors:
-            if pr.id not in all_tasks and (not pr.start or not pr.end):
+            if id(pr) not in all_tasks and (not pr.start or not pr.end):
                 raise RuntimeError(
                     "Task {t.id} ({t.name}) has predecessor {pr.id} ({pr.name}) w/o dates and outside wbs"
                 )
@@ -26,22 +26,22 @@ def _check_loops(project: WBS):
 
 
 def _check_loops_from_task(task: Task, visited_tasks: Set[int], validated: Set[int]):
-    if task.id in validated:
+    if id(task) in validated:
         return
 
-    if task.id in visited_tasks:
+    if id(task) in visited_tasks:
         raise RuntimeError(
             "Found circle",
             [str(t) + "-->" for t in visited_tasks] + [str(task.id) + ":" + task.name]
         )
 
-    visited_tasks.add(task.id)
+    visited_tasks.add(id(task))
 
     for s in task.predecessors:
         _check_loops_from_task(s, visited_tasks, validated)
 
-    visited_tasks.remove(task.id)
-    validated.add(task.id)
+    visited_tasks.remove(id(task))
+    validated.add(id(task))
 
 
 @dataclass(frozen=True)
@@ -245,13 +245,13 @@ class ForwardScheduler(IScheduler):
             calculated: List[int],
             in_progress: List[int]
     ):
-        if _task.id in calculated:
+        if id(_task) in calculated:
             return
 
-        if _task.id in in_progress:
+        if id(_task) in in_progress:
             # Task waits for a task, that waits for this task or for one of its parents
             raise RuntimeError(f"Found circle through tasks hierarchy at task {_task.id}")
-        in_progress.append(_task.id)
+        in_progress.append(id(_task))
 
         # Task can't start before end of its own predecessors and predecessors of all its parents.
         # min_date is the project start: every task collects its own bounds, whatever path it was reached by
@@ -314,8 +314,8 @@ class ForwardScheduler(IScheduler):
                 else:
                     _task.end = max([t.end for t in _task.children if t.end is not None])
 
-        in_progress.remove(_task.id)
-        calculated.append(_task.id)
+        in_progress.remove(id(_task))
+        calculated.append(id(_task))
 
     def calc(self, wbs: WBS) -> Schedule:
         _validate_graph_isolation(wbs)
@@ -431,13 +431,13 @@ class BackwardScheduler(IScheduler):
             calculated: List[int],
             in_progress: List[int]
     ):
-        if _task.id in calculated:
+        if id(_task) in calculated:
             return
 
-        if _task.id in in_progress:
+        if id(_task) in in_progress:
             # Task is awaited by a task, that is awaited by this task or by one of its parents
             raise RuntimeError(f"Found circle through tasks hierarchy at task {_task.id}")
-        in_progress.append(_task.id)
+        in_progress.append(id(_task))
 
         # Task can't end after start of its own successors and successors of all its parents.
         # min_date is the project end: every task collects its own bounds, whatever path it was reached by
@@ -498,8 +498,8 @@ class BackwardScheduler(IScheduler):
             else:
                 _task.start = min([t.start for t in _task.children if t.start is not None])
 
-        in_progress.remove(_task.id)
-        calculated.append(_task.id)
+        in_progress.remove(id(_task))
+        calculated.append(id(_task))
 
     @staticmethod
     def __prepare_tasks(project: WBS):
